@@ -411,6 +411,10 @@ namespace nrf51_details {
                 return false;
         }
 
+        // the advertising type does not expect a scan request
+        if ( !response_data_.buffer )
+            return false;
+
         if ( receive_buffer_.buffer[ 1 ] != scan_request_size )
             return false;
 
